@@ -150,6 +150,9 @@ func drawE2E(rt *rapid.T, o gen.HistOpt) *E2ECase {
 	if rapid.IntRange(0, 3).Draw(rt, "chop") == 0 {
 		c.Chop = rapid.Uint32Range(1, 1<<32-1).Draw(rt, "chop_seed")
 	}
+	if rapid.IntRange(0, 7).Draw(rt, "replica_id_is_event_id") == 0 {
+		c.ServerID = c.H.Cfg.ServerID // a ring of servers: events that carry the replica's own id are part of the binlog like any other
+	}
 	return c
 }
 
